@@ -100,7 +100,7 @@ class StmtMixin:
         return self.err(EXC[name])
 
     def s_Assert(self, s, env, nxt):
-        return self.cond(s.test, env, lambda: nxt(env), lambda: self.err(".assertion"))
+        return self.cond(s.test, env, lambda e2: nxt(e2), lambda e2: self.err(".assertion"))
 
     def s_Expr(self, s, env, nxt):
         v = s.value
@@ -332,7 +332,7 @@ class StmtMixin:
                 none_code, some_code = (a, b) if none_first else (b, a)
                 return "match {} with\n| none =>\n{}\n| some {} =>\n{}".format(
                     env[var][0], indent(none_code), lean_var, indent(some_code))
-            return self.cond(s.test, env, lambda: self.block(s.body, env, fall), lambda: self.block(s.orelse, env, fall))
+            return self.cond(s.test, env, lambda e2: self.block(s.body, e2, fall), lambda e2: self.block(s.orelse, e2, fall))
         return self.with_join(make, env, names, nxt)
 
     def only_assigns(self, s):
